@@ -51,12 +51,12 @@ def defining_levels(repo):
 
 def loops_for(level):
   hk=lambda d: [f"dom(s._dsl.{d}) == old(dom(s._dsl.{d})) - seen", f"forall(k, implies(k in dom(s._dsl.{d}), getv(s._dsl.{d},k) == old(getv(s._dsl.{d},k))))"]
-  if level==1: return {1:Loop(invariant=hk('all_upblk_hostobj'),modifies=['s._dsl.all_upblk_hostobj'])}
+  if level==1: return {'m._dsl.upblks':Loop(invariant=hk('all_upblk_hostobj'),modifies=['s._dsl.all_upblk_hostobj'])}
   if level==2:
     cons=lambda f: [f"forall(k, at(s._dsl.all_{f},k) == ((old(at(s._dsl.all_{f},k)) - at(m._dsl.{f},k)) if k in seen else old(at(s._dsl.all_{f},k))))"]
-    return {1:Loop(invariant=cons('RD_U_constraints'),modifies=['s._dsl.all_RD_U_constraints']),
-            2:Loop(invariant=cons('WR_U_constraints'),modifies=['s._dsl.all_WR_U_constraints']),
-            3:Loop(invariant=hk('all_upblk_reads')+hk('all_upblk_writes')+hk('all_upblk_calls'),modifies=['s._dsl.all_upblk_reads','s._dsl.all_upblk_writes','s._dsl.all_upblk_calls'])}
+    return {'m._dsl.RD_U_constraints':Loop(invariant=cons('RD_U_constraints'),modifies=['s._dsl.all_RD_U_constraints']),
+            'm._dsl.WR_U_constraints':Loop(invariant=cons('WR_U_constraints'),modifies=['s._dsl.all_WR_U_constraints']),
+            'm._dsl.upblks':Loop(invariant=hk('all_upblk_reads')+hk('all_upblk_writes')+hk('all_upblk_calls'),modifies=['s._dsl.all_upblk_reads','s._dsl.all_upblk_writes','s._dsl.all_upblk_calls'])}
   return {}
 
 def contracts(repo):
